@@ -35,6 +35,7 @@ type oracle struct {
 	badBlocks map[string]string // block hash -> catalogue entry (C02)
 
 	heightsCommitted map[int]uint64
+	honestProposals  map[string]int // parts header of proposals signed by honest nodes -> proposer
 	probesRoundGt0   int
 }
 
@@ -145,6 +146,12 @@ func (o *oracle) delivered(n *Node, from int, chID byte, bz []byte) {
 
 // own: node produced a message itself (it has been WAL-synced and handled).
 func (o *oracle) own(n *Node, msg cs.ConsensusMessage) {
+	if pm, ok := msg.(*cs.ProposalMessage); ok && pm.Proposal != nil {
+		if o.honestProposals == nil {
+			o.honestProposals = map[string]int{}
+		}
+		o.honestProposals[pm.Proposal.BlockPartsHeader.String()] = n.idx
+	}
 	if vm, ok := msg.(*cs.VoteMessage); ok && vm.Vote != nil {
 		o.note(n.idx, vm.Vote)
 	}
